@@ -230,6 +230,18 @@ func (e fieldIDOutOfBoundsError) Error() string {
 			"field IDs must be in the range [1, 32767]", e.ID, e.Name)
 }
 
+// enumValueOutOfBoundsError is raised when the value of an enum item does not
+// fit in an i32.
+type enumValueOutOfBoundsError struct {
+	Value int
+}
+
+func (e enumValueOutOfBoundsError) Error() string {
+	return fmt.Sprintf(
+		"enum value %v is out of bounds: "+
+			"enum values must be in the range [-2147483648, 2147483647]", e.Value)
+}
+
 type oneWayCannotReturnError struct {
 	Name string
 }
